@@ -1362,7 +1362,8 @@ class Interp:
         if op == '~':
             if isinstance(v, int):
                 return wrap_int(~v, n.dtype or n.type)
-            return Term('~', v)
+            it_ = int_type(n.dtype or n.type)
+            return Term('~' if not (it_ and it_[0] <= 32) else '~:%d' % it_[0], v)
         if op == '__extension__':
             return v
         raise Unsupported('unary %s at %s:%d' % (op, self.unit.name, n.line))
@@ -1532,8 +1533,9 @@ class Interp:
                     return lb.scale(la.c)
                 if not lb.terms:
                     return la.scale(lb.c)
-            if op == '<<' and not lb.terms and 0 <= lb.c < 63:
-                return Term('<<', a, b)
+        it_ = int_type(t)
+        if it_ and it_[0] <= 32 and op in ('<<', '>>', '*', '/', '%'):
+            return Term(op + ':%d' % it_[0], a, b)     # arithmetic done in a narrower C type: keep that visible
         return Term(op, a, b)
 
     def e_CompoundAssignOperator(self, n, env):
